@@ -58,13 +58,18 @@ var ETypeNames = map[int32]string{16: "des3-cbc-sha1-kd", 17: "aes128-cts-hmac-s
 // RealmName of hop i.
 func RealmName(i int) string { return fmt.Sprintf("R%d.TEST", i) }
 
-// SPN pool: 0..2 remote services (in the last realm), 3 local service, 4 unknown.
+// ExtraSPNs is the number of additional services (pool indices 5..) registered in the last realm.
+const ExtraSPNs = 80
+
+// SPN pool: 0..2 remote services (in the last realm), 3 local service, 4 unknown, 5..84 further remote services.
 func (s *Spec) SPN(i int) string {
 	switch {
 	case i <= 2:
 		return fmt.Sprintf("HTTP/svc%d.r%d.test", i, s.Hops)
 	case i == 3:
 		return "HTTP/local.r0.test"
+	case i >= 5 && i < 5+ExtraSPNs:
+		return fmt.Sprintf("HTTP/extra%d.r%d.test", i, s.Hops)
 	}
 	return "HTTP/nonexistent.r0.test"
 }
@@ -152,6 +157,12 @@ func Build(s *Spec) (*World, error) {
 	w.Realms[0].AddService("HTTP/local.r0.test")
 	for k := 0; k < 3; k++ {
 		w.Realms[s.Hops].AddService(s.SPN(k))
+	}
+	for k := 5; k < 5+ExtraSPNs; k++ {
+		w.Realms[s.Hops].AddService(s.SPN(k))
+		for _, r := range w.Realms {
+			r.SvcRealm[s.SPN(k)] = last
+		}
 	}
 	for _, l := range s.TGTLives {
 		w.Realms[0].PushLife(life(l))
